@@ -1,6 +1,7 @@
 use crate::ctx::Ctx;
 
 pub mod c01;
+pub mod c16;
 pub mod c13;
 pub mod c03;
 pub mod c09;
@@ -15,6 +16,7 @@ pub fn run(prop: &str, ctx: &mut Ctx) -> bool {
         "C14" => c14::run(ctx),
         "C17" => c17::run(ctx),
         "C13" => c13::run(ctx),
+        "C16" => c16::run(ctx),
         _ => return false,
     }
     true
